@@ -9,14 +9,15 @@ def main(path):
     prop = rec.get("property")
     if rec.get("xproc"):
         digs = {}
-        for hs in ("1", "77"):
-            r = fresh_interpreter_run(rec["run_seed"], prop, hashseed=hs, tier=rec.get("tier", "quick"))
+        for hs, ncpu in (("1", 1), ("77", 6)):
+            r = fresh_interpreter_run(rec.get("program") or rec["run_seed"], prop, hashseed=hs,
+                                      tier=rec.get("tier", "quick"), cpus=ncpu)
             digs[hs] = (r.get("status"), r.get("events_digest"), r.get("results_digest"))
         same = len(set(digs.values())) == 1
         print(json.dumps(digs, indent=1))
         if not same:
             print("VIOLATION property=%s replay=%s" % (prop, path))
-            print("REPRODUCED: results differ across PYTHONHASHSEED")
+            print("REPRODUCED: results differ across process environments (PYTHONHASHSEED / usable CPUs)")
             return 1
         print("NOT-REPRODUCED")
         return 0
